@@ -339,8 +339,12 @@ pub fn run(c: &Conversation) -> Outcome {
 /// run the shim configuration of `c` over a prepared transport (the client bytes are whatever
 /// the transport holds)
 pub fn run_raw(c: &Conversation, tr: Transport) -> Outcome {
+    run_raw_tls(c, tr, None)
+}
+
+pub fn run_raw_tls(c: &Conversation, tr: Transport, tls: Option<std::sync::Arc<rustls::ServerConfig>>) -> Outcome {
     let inbound_len = tr.0.borrow().inbound.len();
-    run_inner(c, None, false, tr, inbound_len, vec![inbound_len])
+    run_inner(c, tls, false, tr, inbound_len, vec![inbound_len])
 }
 
 pub fn run_with(c: &Conversation, tls: Option<std::sync::Arc<rustls::ServerConfig>>, convert_params: bool) -> Outcome {
@@ -384,6 +388,12 @@ fn run_inner(c: &Conversation, tls: Option<std::sync::Arc<rustls::ServerConfig>>
         Err(p) => RunResult::Panic(p),
     };
     let mut t = tr.0.borrow_mut();
+    // let a live peer see what was flushed after the server's last read
+    if let Some(mut p) = t.peer.take() {
+        let rest = t.out[t.peer_fed..t.flushed].to_vec();
+        t.peer_fed = t.flushed;
+        let _ = p.exchange(&rest);
+    }
     let mut s = st.borrow_mut();
     Outcome {
         result,
